@@ -632,7 +632,15 @@ pub fn c07(c: &mut Ctx) {
                         t_ref = t_ref.max(e.t);
                     }
                 }
-                let t_hook = ar.hooks.iter().filter(|(s, _, _)| *s < ss).map(|(_, t, _)| *t).max().unwrap_or(0);
+                // on_run does not count: it is an idle handler, cancelled the moment the mailbox reports "no reference
+                // left" - rounds of on_run that go on after that instant are exactly what this rule is looking for
+                let t_hook = ar
+                    .hooks
+                    .iter()
+                    .filter(|(s, _, e)| *s < ss && !matches!(e, HookEv::RunEnter(_) | HookEv::RunStep(..) | HookEv::RunExit(..)))
+                    .map(|(_, t, _)| *t)
+                    .max()
+                    .unwrap_or(0);
                 let t_ops = h
                     .ops
                     .iter()
@@ -643,7 +651,7 @@ pub fn c07(c: &mut Ctx) {
                 let cause = t_ref.max(t_hook).max(t_ops);
                 c.chk.hit("C07");
                 if st > cause {
-                    c.v("C07", "end-delayed", ss, format!("actor {a}: the last strong handle went away at t={t_ref}us, its last hook activity was at t={t_hook}us and the last operation on it ended at t={t_ops}us, yet on_stop only began at t={st}us: something hidden kept it alive"));
+                    c.v("C07", "end-delayed", ss, format!("actor {a}: the last strong handle went away at t={t_ref}us, its last hook activity other than on_run was at t={t_hook}us and the last operation on it ended at t={t_ops}us, yet on_stop only began at t={st}us: something hidden kept it alive"));
                 }
             }
         }
@@ -1185,6 +1193,32 @@ pub fn c11(c: &mut Ctx) {
                 c.chk.hit("C11");
                 if !*ok {
                     c.v("C11", "upgrade-none-while-message-queued", e.seq, format!("upgrade() of a weak handle to actor {a} returned None although an accepted message or stop request is still queued and the actor has not begun to end"));
+                }
+            } else if !op_in_flight && !h.split && ar.joined.as_ref().map(|j| j.0 > e.seq).unwrap_or(true) && {
+                // the actor has not ended yet, but nothing refers to it: no strong handle, no operation in flight, no
+                // accepted message still queued, and it is not inside on_start or a handler (which hold a reference
+                // themselves; on_run and on_stop only get a weak one). The mailbox is closed from that instant on,
+                // whether or not the actor task has noticed yet: upgrade must already fail
+                let started = ar.start_exit().map(|(x, _)| x < e.seq).unwrap_or(false);
+                let in_ref_hook = ar
+                    .hooks
+                    .iter()
+                    .filter(|(s, _, _)| *s < e.seq)
+                    .last()
+                    .map(|(_, _, ev)| matches!(ev, HookEv::StartEnter | HookEv::HEnter(_)))
+                    .unwrap_or(true);
+                let queued = h.ops.iter().any(|o| {
+                    o.a == Some(*a) && o.inv_seq < e.seq && (o.tag.is_send() || o.tag == OpTag::Stop) && !matches!(o.res(), Some(Res::ErrSend) | Some(Res::NoHandle) | Some(Res::Unsupported))
+                        && match o.mid.and_then(|m| h.msgs.get(&m)) {
+                            Some(m) => m.hexit.first().map(|x| x.0 > e.seq).unwrap_or(true),
+                            None => true,
+                        }
+                });
+                started && !in_ref_hook && !queued
+            } {
+                c.chk.hit("C11");
+                if *ok {
+                    c.v("C11", "upgrade-some-while-unreferenced", e.seq, format!("upgrade() of a weak handle to actor {a} returned Some although no strong handle exists, nothing is queued or in flight and the actor is not inside on_start or a handler: something hidden holds a reference"));
                 }
             } else if !op_in_flight && ar.joined.as_ref().map(|j| j.0 < e.seq).unwrap_or(false) {
                 // a send whose push came after the actor had ended leaves its envelope - which holds a strong
